@@ -70,6 +70,7 @@ class PipeOps(FullOps):
         return None
 
     def loop_enter(self, lid, st, info, env):
+        super().loop_enter(lid, st, info, env)
         self.loop_orders.append(info.get("order"))
         self._lid += 1
         self.loop_ids.append(self._lid)
